@@ -599,9 +599,18 @@ func runCheck(cfg *runConfig) int {
 		fmt.Printf("VIOLATION property=%s replay=%s obligation=engine/none status=vacuous no-failing-input-found\n", cfg.prop,
 			writeReplay(cfg, cfg.prop, "engine/none", "no obligation was generated for this property", nil))
 	}
-	if len(engineIssues) > 0 && cfg.verbose {
-		for _, e := range engineIssues {
-			fmt.Fprintln(os.Stderr, "engine:", e)
+	// a contract clause that cannot be evaluated, a construct the executor does not model, or a capped
+	// path enumeration leaves obligations ungenerated: the function is not verified
+	if len(engineIssues) > 0 {
+		sort.Strings(engineIssues)
+		violations++
+		failing = append(failing, "engine/incomplete")
+		fmt.Printf("VIOLATION property=%s replay=%s obligation=engine/incomplete status=incomplete no-failing-input-found\n", cfg.prop,
+			writeReplay(cfg, cfg.prop, "engine/incomplete", "the obligations of these functions are incomplete (a clause could not be evaluated or a construct is not modelled):\n"+strings.Join(engineIssues, "\n"), nil))
+		if cfg.verbose {
+			for _, e := range engineIssues {
+				fmt.Fprintln(os.Stderr, "engine:", e)
+			}
 		}
 	}
 	if cfg.updateLock {
